@@ -173,7 +173,10 @@ class C04(core.PropBase):
         rng.shuffle(strs)
         strs = strs[: (200000 if thorough else 12000)]
         strs += ["{}", "[]", "null", "1", '"x"', '{"a": 1}', "a: 1", "- 1", "a: {b: [1, 2]}", "? [1, 2]\n: 3", "!!python/object:os.system x", "&a [*a]", "a: &x 1\nb: *x", "{1: 2}", "2001-12-14: x",
-                 '{"a": NaN}', '{"a": 1e999}', "﻿{}", '{"a":' * 50 + "1" + "}" * 50, "[" * 2000, "{" * 2000, "a: " * 200 + "1"]
+                 '{"a": NaN}', '{"a": 1e999}', "﻿{}", '{"a":' * 50 + "1" + "}" * 50, "[" * 2000, "{" * 2000, "a: " * 200 + "1",
+                 "!!float ''", "!!timestamp x", "a: !!bool x", "a: !!int x", "!!set {a}", "a: !!binary x", "!!omap [a]", "a: !!pairs [b]", "0x_", "0b_", "a: 0x_",
+                 "a: 2001-02-30", "when: 2023-13-01", "!!python/tuple [1]", "a: !!null x", "!!map [1]", "!!seq {a: 1}", "a: !!str [1]", "a: !!float .", "a: !!int ''",
+                 "a: !!timestamp ''", "- !!bool maybe", "a: !!merge x", "<<: 1", "a: {<<: [1]}", "1" * 5000, '{"a": ' + "9" * 5000 + "}"]
         for j in range(0, len(strs), 300):
             yield {"kind": "docstr", "strs": strs[j:j + 300], "tag": "docstr"}
 
